@@ -397,6 +397,50 @@ example :
     Spec.lookupSeq (pyDialect false) s [.ref 0, .ref 2] [.int 3] = .error .FOAY0001 ∧
     Spec.lookupSeq (pyDialect false) s [.ref 0, .atom (.int 1)] [] = .error .XPTY0004 := by decide
 
+/-- **call_eq_get_eq_lookup**: a map or array called as a function with a *computed* key.  For every
+dialect, every function value `F` and every argument value `A`:
+* if `A` is one atomic item `k` and `F` one item, `$F(A)` is the single lookup `$F?(k)` — for a map
+  `map:get($F, k)`, for an array `array:get` with the integer-position and FOAY0001 rules;
+* if `A` is empty, has two or more items, or is not atomic, the call is XPTY0004 — a one-item
+  *sequence* is the same as the item (there is no other representation in the model; the seeded
+  defect "unwrapping of a one-item sequence lost" is a representation bug the correspondence has to
+  catch with computed arguments). -/
+theorem call_eq_get_eq_lookup (d : Dialect) (s : Store) (it : Item) (k : Key) :
+    callFn d s [it] [.atom k] = Spec.lookup1 d s it k ∧
+    (∀ a es, it = .ref a → s[a]? = some (Obj.map es) → callFn d s [it] [.atom k] = .ok (d.mapGet es k)) ∧
+    (∀ a ms, it = .ref a → s[a]? = some (Obj.arr ms) →
+      callFn d s [it] [.atom k] = (d.arrIndex k >>= fun p => d.arrGet ms p)) := by
+  refine ⟨?_, ?_, ?_⟩
+  · cases it with
+    | atom x => rfl
+    | ref a => simp only [callFn, Spec.lookup1]; cases s[a]? with
+      | none => rfl
+      | some o => cases o <;> rfl
+  · intro a es hit hs; subst hit; simp only [callFn, hs]
+  · intro a ms hit hs; subst hit; simp only [callFn, hs]
+
+/-- the dynamic-call error cases: no argument item, several, or a non-atomic one; and a function
+value that is not exactly one map or array -/
+theorem call_errors (d : Dialect) (s : Store) (f : Seq) :
+    callFn d s f [] = .error .XPTY0004 ∧
+    (∀ x y rest, callFn d s f (x :: y :: rest) = .error .XPTY0004) ∧
+    (∀ a, callFn d s f [.ref a] = .error .XPTY0004) ∧
+    (∀ k, callFn d s [] [.atom k] = .error .XPTY0004) ∧
+    (∀ k x y rest, callFn d s (x :: y :: rest) [.atom k] = .error .XPTY0004) ∧
+    (∀ k x, callFn d s [.atom x] [.atom k] = .error .XPTY0004) := by
+  refine ⟨?_, ?_, ?_, ?_, ?_, ?_⟩ <;> intros <;> simp only [callFn]
+
+/-- tests on literals: `$m(k)`, `$a(2)`, `$a(0)`, `$a('x')`, chained `$t('x')(1)` -/
+example :
+    let s : Store := [.map [(.int 1, [.atom (.str [120])])], .arr [[.atom (.int 5)], [.atom (.int 6)]],
+                      .map [(.str [120], [.ref 0])]]
+    callFn (pyDialect false) s [.ref 0] [.atom (.dec 1)] = .ok [.atom (.str [120])] ∧
+    callFn (pyDialect false) s [.ref 1] [.atom (.int 2)] = .ok [.atom (.int 6)] ∧
+    callFn (pyDialect false) s [.ref 1] [.atom (.int 0)] = .error .FOAY0001 ∧
+    callFn (pyDialect false) s [.ref 1] [.atom (.str [120])] = .error .XPTY0004 ∧
+    (evalOp (pyDialect false) ⟨s, [[.ref 2], [.atom (.str [120])], [.atom (.int 1)]]⟩ (.call2 0 1 2)).map (·.2)
+      = .ok [.atom (.str [120])] := by decide
+
 /-- **call_site_reuse_eq_map**: read-only call sites (map:get/contains/size/keys, array:get/head/
 size, `?`) on existing variables, evaluated again after *any* further operations of a copying run,
 give the list of the results of the single calls made before — nothing of an evaluation is kept
